@@ -15,7 +15,8 @@ func init() {
 			"(sortition proofs, BLS signatures), the proposer (real proposal frames), the clock (step timer, round-index timeout) and the network: per context and vote kind a subset of validators is chosen by " +
 			"subset-sum over the real seat counts so that the tally lands exactly on / one below / just above floor(0.685*T) (floor(0.585*Tcert) for certificate votes) or everybody votes; Byzantine frames are " +
 			"inserted (equivocation before/after the first vote was counted, exact duplicates, stale round, old index, future round/index, credential of another step, inflated seat count, frame signer != vote " +
-			"signer, unknown block, non-member/offline/House sender, BLS signature over another hash, time stamp far ahead), honest actions are reordered and frames/timers overtake pending mux deliveries. " +
+			"signer, unknown block, non-member/offline/House sender, BLS signature over another hash, time stamp far ahead), the winning proposal may be lost on the way to the node while an honest minority votes for the " +
+			"competitor, honest actions are reordered and frames overtake pending mux deliveries (in particular between the engine moving to the next index/round and its Voter being told). " +
 			"Every frame enters through the real MessageHandler.HandleMsg. Oracle = shadow tally per (round, index, kind): sender -> (first hash, weight verified by the simulator with VrfVerifySortition, " +
 			"equivocated?), fed only with votes handled while the engine was in that context; checked on every output: own Precommit(B) => prevote tally(B) >= quorum; own Certificate(B) => precommit tally(B) >= quorum; " +
 			"CommitEvent(B) => precommit tally(B) >= quorum (and certificate tally(B) >= certificate quorum in certificate rounds); RoundIndexChangeEvent(h) => next-index tally(h) >= quorum; packed sets " +
